@@ -37,7 +37,23 @@ POOL_LABEL = {"confuse": "texts that coincide under white-space / case normalisa
               "deep": "every nesting constructor at depths 1..8 on a document nested to match",
               "keyword": "field names spelled like keywords (true, false, null, and, or, not, in) in every operand position",
               "litop": "every postfix operator, comparison and call applied directly to a literal operand",
-              "compose": "every built-in on what the any-typed built-ins pass through (expression references inside containers included)"}
+              "compose": "every built-in on what the any-typed built-ins pass through (expression references inside containers included)",
+              "mapnull": "expression references that ignore their input (literals, multi-selects of literals) under map / projections / by-functions over arrays with nulls at every position",
+              "nested": "shallow versus deep: merge, flatten (empty nested lists too), contains, ==, values on containers of containers",
+              "twins": "the same text between different delimiters ('T', `T`, \"T\") in one expression, both orders",
+              "twoslice": "two or three slices in one expression with every combination of explicit / omitted parts; slices with an omitted start behind every projection kind",
+              "cmpchain": "two comparators side by side without parentheses (all 36 pairs): one binding power, left-associative",
+              "absent": "filter predicates `field OP literal` over arrays mixing objects with / without the key, explicit nulls and non-objects, both operand orders",
+              "litpost": "a literal as the right operand of every comparator / || / && followed by every postfix operator",
+              "notgroup": "a parenthesised group as the operand of every prefix / infix context followed by every step",
+              "selfnest": "a call as an argument of a call of the same function (0, 1, 2 arguments) for every built-in",
+              "keyorder": "two failing members of one multi-select hash whose keys are not in ascending order: the one written first is reported",
+              "msidx": "a multi-select list / hash indexed at once with indexes beyond its arity in both directions; unselected members still evaluated",
+              "foldlit": "&& / || with a literal on either side x operands of every truthiness, failing operands included",
+              "bsruns": "runs of 0..7 backslashes before a closing / escaped delimiter in raw strings, quoted identifiers and JSON literals, alone and inside larger expressions",
+              "byorder": "by-functions: an earlier element with a mistyped key and a later element whose key expression fails, in both orders and at every position",
+              "digitkeys": "member names made of digits on arrays and objects (a name never indexes an array)"}
+R6 = ["mapnull", "nested", "twins", "twoslice", "cmpchain", "absent", "litpost", "notgroup", "selfnest", "keyorder", "msidx", "foldlit", "digitkeys", "bsruns", "byorder"]
 
 
 def pool_families(fams, work, ev, drv, nsamples=1):
@@ -53,10 +69,31 @@ def pool_families(fams, work, ev, drv, nsamples=1):
     return rejects
 
 
+def pools_matching(pattern, what, work, ev, drv, skip=()):
+    """every hand-shaped case (all families of eval_pools.ndjson) whose expression text contains the construct a property is about
+    (regular expression on the text), judged like every other evaluation case: the families were written for one property each, the
+    constructs meet in all of them"""
+    import re
+    rx = re.compile(pattern)
+    c = work.path("pools.match.cases")
+    n = 0
+    with open(c, "w") as f:
+        for line in open(POOLS):
+            r = json.loads(line)
+            if r["fam"] in skip:
+                continue
+            if rx.search(common.uncps(r["text"])):
+                f.write(line)
+                n += 1
+    return run_and_judge("all %d hand-shaped cases (every family) whose text contains %s" % (n, what), c, work, ev, drv, docs=POOLS + ".docs", nsamples=1)
+
+
 def run(prop, tier, seed, work, ev):
     t = TIERS[tier]
     drv = build_driver()
-    tlc_ok("mc/MC_Eval.tla", t["mc"], work, ev=ev, label="Interp(L1)=Eval(L0), laws, comparison algebra " + tier, timeout=3000)
+    tlc_ok("mc/MC_Eval.tla", t["mc"], work, ev=ev, label="Interp(L1)=Eval(L0), laws, comparison algebra " + tier, timeout=6000)
+    if tier == "thorough":
+        tlc_ok("mc/MC_Eval.tla", "MC_Eval_quick.cfg", work, ev=ev, label="Interp(L1)=Eval(L0), laws, comparison algebra (documents of depth 1 over all atoms)", timeout=3000)
     tlc_must_fail("mc/MC_Eval.tla", "MC_Eval_neg.cfg", work, invariant="Inv_InterpIsEval", ev=ev)
     tlc_must_fail("mc/MC_Eval.tla", "MC_Eval_neg2.cfg", work, invariant="Inv_InterpIsEval", ev=ev)
     ev.exhaustive = True
@@ -83,7 +120,7 @@ def run(prop, tier, seed, work, ev):
     gen(work, "preds", c)
     rejects += run_and_judge("filter predicates that are chains themselves (projection then pipe / index / field; inner predicates true for null), also under '!' and followed by one more link",
                              c, work, ev, drv, docs=c + ".docs", nsamples=1)
-    rejects += pool_families(["confuse", "bool", "inflate", "alias", "hash", "nest", "errpair", "deep", "keyword", "litop"], work, ev, drv)
+    rejects += pool_families(["confuse", "bool", "inflate", "alias", "hash", "nest", "errpair", "deep", "keyword", "litop"] + R6, work, ev, drv)
     rejects += varapi_phase(work, ev, drv)
     params = work.path("rand.in")
     e = dict(os.environ, GEN_MAXLEN=str(t["maxlen"]))
